@@ -170,7 +170,7 @@ class SigmaCorrelationCondition:
 
     def to_dict(self: Self) -> dict[str, Any]:
         result: dict[str, Any] = {self.op.name.lower(): self.count}
-        if self.fieldref:
+        if self.fieldref is not None:
             result["field"] = self.fieldref
         if self.percentile is not None:
             result["percentile"] = self.percentile
